@@ -238,8 +238,10 @@ def units(w):
                 w.hooks["sorted"] = hook
             lst_node = mk("NodeLiteral", value=coll)
             node = mk("NodeFor", identifiers=PList(["x"]), expression=lst_node, block=body, what=None)
-            env = env_obj(it, {"other": V.TRUE})
-            return [node, env], {}, {"items": items.sym, "env": env, "marker": marker, "coll": coll}
+            # the enclosing scope: with an earlier definition of the loop variable's name (list) / without one (set)
+            x0 = SElem(z3.Int("x0"), "value")
+            env = env_obj(it, {"other": V.TRUE, "x": x0} if kind == "list" else {"other": V.TRUE})
+            return [node, env], {}, {"items": items.sym, "env": env, "marker": marker, "coll": coll, "x0": x0 if kind == "list" else None}
         return setup
 
     def for_inv(st):
@@ -266,6 +268,11 @@ def units(w):
             if kind == "set":
                 it.check("post:set-enumerated-through-sorted(host set)", c["marker"].get("src") is c["coll"].fields["value"])
             it.check("post:loop-variable-bound-to-the-elements-in-order-one-body-evaluation-each", z3.And(seen == z3.SubSeq(L, 0, p), p <= n))
+            # however the loop is left (completed, break, return, error in the body): the scope holds what it held before
+            ents = {e[0]: e[1] for e in c["env"].fields["map"].entries}
+            it.check("frame:scope-unchanged-after-the-loop(loop variable gone or the hidden definition back, nothing else touched)",
+                     set(ents) == ({"other", "x"} if c["x0"] is not None else {"other"}) and ents["other"] is V.TRUE
+                     and (c["x0"] is None or ents["x"] is c["x0"]))
             if o.kind == "return":
                 r = val_id(o.value, V)
                 it.check("post:stops-early-only-on-break-or-return", z3.Or(p == n, z3.And(p >= 1, z3.Or(KIND(VAL(p - 1)) == K_BREAK, KIND(VAL(p - 1)) == K_RETURN))))
@@ -279,8 +286,8 @@ def units(w):
         return post
     for kind in ("list", "set"):
         U.append(Unit("nodes.py::NodeFor.evaluate", s_for(kind), p_for(kind), name=f"nodes.py::NodeFor.evaluate[{kind}]",
-                      loops={(3 if kind == "list" else 6): Loop(for_inv, modifies=["ghost:trace", "ghost:" + SEEN], lemmas=for_lemmas,
-                                                                havoc_as={"result": lambda it: SElem(z3.Int(it.fresh("result")), "value")})},
+                      loops={"NodeFor.iterate": {(3 if kind == "list" else 6): Loop(for_inv, modifies=["ghost:trace", "ghost:" + SEEN], lemmas=for_lemmas,
+                                                                                    havoc_as={"result": lambda it: SElem(z3.Int(it.fresh("result")), "value")})}},
                       prepare=K.install, replay=replay_prog))
 
     # ---- for over maps, objects and strings: the same exit handling and binding, for containers of up to 3 entries
